@@ -86,6 +86,31 @@ def search(chk, broken):
                                                                  f'requested range is missing',
                                         {'op': 'rows-metric', 'range_m': Rm, 'tail_wind_mps': wv, 'mv_mps': shot.ammo.mv >> U.MPS, 'bc': shot.ammo.dm.BC, 'rows': len(rows)}))
             break
+    # one long-lived calculator, the SAME numbers for range and step while the preferred distance unit changes between the cards (bare numbers
+    # mean the preferred unit in force at the call; explicit quantities mean themselves): rows at the multiples of the step in THAT unit
+    calc_l = pbc.Calculator()
+    shot_l = pbc.Shot(pbc.Weapon(U.Inch(2), 0), pbc.Ammo(pbc.DragModel(0.3, pbc.TableG7), U.FPS(2700)))
+    try:
+        for it in range(6 if (chk.tier == 'quick' and not broken) else 60):
+            if chk.over():
+                break
+            pu = rng.choice([U.Yard, U.Meter, U.Foot])
+            pbc.PreferredUnits.distance = pu
+            Rn, stn = rng.choice([(400, 100), (300, 50), (400, 100)])
+            bare = rng.random() < 0.6
+            rows = calc_l.fire(shot_l, Rn if bare else pu(Rn), stn if bare else pu(stn)).trajectory
+            evals += 1
+            ds = [r.distance >> pu for r in rows]
+            nexp = Rn // stn + 1
+            bad = next((k for k in range(min(len(ds), nexp)) if abs(ds[k] - k * stn) > 1e-6 * max(1.0, k * stn)), None)
+            if bad is not None or len(ds) < nexp:
+                chk.failures.append(Failure('rows-at-multiples:preferred-unit-history',
+                                            f'a calculator used for several cards: fire(shot, {Rn}, {stn}) as {"bare numbers" if bare else pu.name + " quantities"} under preferred '
+                                            f'distance unit {pu.name} gives {len(ds)} rows' + (f', row {bad} at {ds[bad]:.4f} {pu.name} instead of {bad * stn}' if bad is not None else ''),
+                                            {'op': 'rows-unit-history', 'preferred': pu.name, 'range': Rn, 'step': stn, 'bare': bare, 'rows': len(ds), 'first_bad_row': bad}))
+                break
+    finally:
+        pbc.PreferredUnits.defaults()
     # the bottom of the admitted domain: recording steps AT or just above the maximum integration step (0.5 ft by default), where one
     # integration advance over the ground (0.25 ft x ground speed / air speed) is a large part of a recording step — tail winds make it more
     # than half of it.  Exactly one row per multiple of the step, each at its multiple.
